@@ -48,6 +48,8 @@ from ampform.dynamics.phasespace import (  # noqa: E402
 from ampform.sympy._cache import get_readable_hash  # noqa: E402
 from ampform.sympy.math import ComplexSqrt  # noqa: E402
 
+import callables_C16 as cc  # noqa: E402
+
 CASES_PER_FILE = 400
 EXIT_CRASH = 77
 
@@ -77,8 +79,97 @@ def build_pool():
         ("bms_again", BreakupMomentumSquared(s, m1, m2)),
         ("sum_edw", sum(edw(PhaseSpaceFactorSWave, L) * sp.Symbol(f"c{L}") for L in range(5))),
         ("sum_edw_std", sum(edw(PhaseSpaceFactor, L) * sp.Symbol(f"c{L}") for L in range(5))),
+        # non-SymPy attribute that is a module-level function / a callable instance with value equality
+        ("edw_fn2", edw(cc.phsp_squared)),
+        ("edw_fn3", edw(cc.phsp_cubed)),
+        ("edw_dc1", edw(cc.PoweredPhaseSpace(1))),
+        ("edw_dc3", edw(cc.PoweredPhaseSpace(3))),
+        ("edw_dc1_again", edw(cc.PoweredPhaseSpace(1))),
     ]
     return pool
+
+
+def attr_pairs():
+    """Pairs of one @unevaluated expression differing ONLY in the state of a non-SymPy attribute, for
+    every kind of attribute value (oracle-only family: several kinds do not survive pickling with ==,
+    so their cache entries are never served again - correct, but outside the model's expr_eqb)."""
+    s, m0, g0, m1, m2, x = sp.symbols("s m0 Gamma0 m1 m2 x")
+
+    def edw(ph):
+        return EnergyDependentWidth(s, m0, g0, m1, m2, angular_momentum=0, meson_radius=1, phsp_factor=ph)
+    la, lb = cc.lambda_pair()
+    return {
+        "class": (edw(PhaseSpaceFactor), edw(PhaseSpaceFactorSWave)),
+        "function": (edw(cc.phsp_squared), edw(cc.phsp_cubed)),
+        "partial": (edw(cc.partial_phsp(1)), edw(cc.partial_phsp(3))),
+        "partial_positional": (edw(__import__("functools").partial(cc.powered_phsp, power=2)),
+                               edw(__import__("functools").partial(cc.powered_phsp, power=4))),
+        "callable_dataclass": (edw(cc.PoweredPhaseSpace(1)), edw(cc.PoweredPhaseSpace(3))),
+        "callable_plain": (edw(cc.PlainPhaseSpace(1)), edw(cc.PlainPhaseSpace(3))),
+        "callable_unhashable": (edw(cc.UnhashablePhaseSpace(1)), edw(cc.UnhashablePhaseSpace(3))),
+        "closure": (edw(cc.closure_factory(1)), edw(cc.closure_factory(3))),
+        "lambda": (edw(la), edw(lb)),
+        "value_dataclass": (cc.TaggedPower(x, cc.Tag(1)), cc.TaggedPower(x, cc.Tag(3))),
+        "value_plain": (cc.TaggedPower(x, cc.PlainTag(1)), cc.TaggedPower(x, cc.PlainTag(3))),
+    }
+
+
+ATTR_ORDERS = [[0, 1], [1, 0], [0, 1, 0, 1], [1, 0, 0, 1], [0, 0, 1, 1, 0]]
+
+
+def run_attr_pair(kind, order, forked, base):
+    """Calls on the two expressions of a pair in the given order on one fresh directory; with forked,
+    every call after the first is made by a freshly forked process (a 'later process').  Returns
+    (n_calls, problem | None, unpicklable: bool)."""
+    a, b = attr_pairs()[kind]
+    want = [a.doit(), b.doit()]
+    if same(want[0], want[1]):
+        return 0, "harness pair %s is degenerate" % kind, False
+    try:
+        pickle.dumps((a, want[0]))
+        pickle.dumps((b, want[1]))
+        picklable = True
+    except Exception:  # noqa: BLE001
+        picklable = False
+    root = tempfile.mkdtemp(prefix="attr_", dir=base)
+    n = 0
+    try:
+        for pos, which in enumerate(order):
+            e = (a, b)[which]
+            n += 1
+            if forked and pos > 0:
+                r_fd, w_fd = os.pipe()
+                pid = os.fork()
+                if pid == 0:
+                    try:
+                        try:
+                            ret = asy.perform_cached_doit(e, root)
+                            _send(w_fd, {"ok": bool(isinstance(ret, sp.Basic) and same(ret, want[which])), "exc": None})
+                        except BaseException as exc:  # noqa: BLE001
+                            _send(w_fd, {"ok": False, "exc": type(exc).__name__})
+                    finally:
+                        os._exit(0)
+                os.close(w_fd)
+                doc = _read_lines(r_fd, 120)
+                os.close(r_fd)
+                os.waitpid(pid, 0)
+                if not isinstance(doc, dict):
+                    doc = {"ok": False, "exc": "child died"}
+            else:
+                try:
+                    ret = asy.perform_cached_doit(e, root)
+                    doc = {"ok": bool(isinstance(ret, sp.Basic) and same(ret, want[which])), "exc": None}
+                except Exception as exc:  # noqa: BLE001
+                    doc = {"ok": False, "exc": type(exc).__name__}
+            if not doc["ok"]:
+                if doc["exc"] and not picklable:
+                    return n, None, True      # unpicklable expression: recorded, not a C16 alarm (see runner)
+                what = ("raised %s" % doc["exc"]) if doc["exc"] else \
+                    "returned something else than its own doit() (the unfolding of the other expression?)"
+                return n, "call %d (on %s of the pair) %s" % (pos, "AB"[which], what), False
+    finally:
+        shutil.rmtree(root, ignore_errors=True)
+    return n, None, False
 
 
 def same(a, b):
@@ -120,14 +211,19 @@ class World:
         self.did = []           # class id -> result id
         for c, r in enumerate(self.reps):
             self.did.append(self.res_id(self.doits[r], add=True))
-        self.keystr = [get_readable_hash(self.exprs[r]) for r in self.reps]
+        self.fatal = None
+        try:
+            self.keystr = [get_readable_hash(self.exprs[r]) for r in self.reps]
+        except Exception as exc:  # noqa: BLE001
+            self.fatal = "get_readable_hash raised %s: %s" % (type(exc).__name__, str(exc)[:80])
+            self.keystr = ["k%d" % c for c in range(len(self.reps))]
         self.keys = []
         for k in self.keystr:
             if k not in self.keys:
                 self.keys.append(k)
         self.ktab = [self.keys.index(k) for k in self.keystr]
         for i, e in enumerate(self.exprs):
-            if get_readable_hash(e) != self.keystr[self.cid[i]]:
+            if self.fatal is None and get_readable_hash(e) != self.keystr[self.cid[i]]:
                 self.problems.append(("eq_but_other_key", self.names[i]))
 
     def res_id(self, obj, add=False):
@@ -633,7 +729,8 @@ def gen_histories(w: World, seed, tier, budget, sizes):
 
     pairs = [("edw_std", "edw_sw"), ("edw_std", "edw_cx"), ("edw_sw", "edw_cx"), ("cs_x", "cs_xpos"),
              ("cs_xpos", "cs_xneg"), ("cs_x", "cs_xreal"), ("edw_std", "edw_std_again"), ("bms", "bms_again"),
-             ("edw_std", "bms"), ("sum_edw", "sum_edw_std")]
+             ("edw_std", "bms"), ("sum_edw", "sum_edw_std"), ("edw_fn2", "edw_fn3"), ("edw_dc1", "edw_dc3"),
+             ("edw_dc1", "edw_dc1_again")]
     # the three refutation witnesses of the pinned variant, on real expressions
     add("witness_collision", [call("edw_std"), call("edw_sw")])
     add("witness_collision", [call("cs_xpos"), call("cs_xneg")])
@@ -841,18 +938,113 @@ LEGEND = ("outcome codes: >=100 result table id, 99 unknown expression, 1 tuple,
           "[4,res] legacy [5,src,res] (src,res)")
 
 
+ENV_VALUES = [None, "", "0", "1", "1234", "4294967295", "007", "random", "abc", " 1", "1 ", "-1", "+1", "12a", "0x10",
+              "1.0", "None", "RANDOM"]
+
+
+def env_probe():
+    """The real _get_python_hash_seed / get_readable_hash under PYTHONHASHSEED values assigned at run
+    time.  code: 0 = sha256 mode, n+1 = python-hash mode with seed n, -1 = raised."""
+    import ampform.sympy._cache as ch
+    saved = os.environ.get("PYTHONHASHSEED")
+    out = []
+    obj = sp.Symbol("x") + 1
+    try:
+        for v in ENV_VALUES:
+            if v is None:
+                os.environ.pop("PYTHONHASHSEED", None)
+            else:
+                os.environ["PYTHONHASHSEED"] = v
+            rec = {"value": v}
+            try:
+                r = ch._get_python_hash_seed()
+                rec["code"] = 0 if r is None else int(r) + 1
+            except Exception as exc:  # noqa: BLE001
+                rec["code"], rec["exc"] = -1, type(exc).__name__
+            try:
+                h = get_readable_hash(obj)
+                if rec["code"] == 0:
+                    rec["key_ok"] = bool(re.fullmatch(r"[0-9a-f]{64}", h))
+                elif rec["code"] > 0:
+                    rec["key_ok"] = h.startswith("pythonhashseed-%d" % (rec["code"] - 1))
+                else:
+                    rec["key_ok"] = False
+            except Exception as exc:  # noqa: BLE001
+                rec["key_ok"], rec["key_exc"] = False, type(exc).__name__
+            out.append(rec)
+    finally:
+        if saved is None:
+            os.environ.pop("PYTHONHASHSEED", None)
+        else:
+            os.environ["PYTHONHASHSEED"] = saved
+    return out
+
+
+def write_env_cases(mode):
+    name = "Cases_C16_%s_env.v" % mode
+    vals = "; ".join("EnvUnset" if v is None else 'EnvStr "%s"' % v for v in ENV_VALUES)
+    with open(name, "w") as f:
+        f.write("From Coq Require Import List String NArith.\nImport ListNotations.\nFrom AV Require Import Cache.\n"
+                "Import HashMode.\nOpen Scope string_scope.\nOpen Scope N_scope.\nSet Printing Width 1000000.\n")
+        f.write("Eval vm_compute in (map (fun v => mode_code (hash_mode v)) [%s]).\n" % vals)
+    return name
+
+
 # --------------------------------------------------------------------------- commands
 def cmd_run(seed, tier, mode, budget):
     w = World()
     base = tempfile.mkdtemp(prefix="c16_", dir=os.environ.get("TMPDIR") or "/tmp")
     failures, records = [], []
     t0 = time.time()
+    hs = os.environ.get("PYTHONHASHSEED")
+    envobs = env_probe()
+    envfile = write_env_cases(mode)
+    for rec in envobs:
+        if rec["code"] < 0 or not rec["key_ok"]:
+            failures.append({"signature": "prop:keyfunction:raised",
+                             "what": "with PYTHONHASHSEED=%r (assigned at run time) _get_python_hash_seed -> %s, get_readable_hash -> %s"
+                             % (rec["value"], rec.get("exc", rec["code"]), rec.get("key_exc", "key ok" if rec["key_ok"] else "wrong key format")),
+                             "case": {"kind": "envvalue", "mode": mode, "hashseed": hs, "value": rec["value"]}})
+            break
+    if w.fatal:
+        shutil.rmtree(base, ignore_errors=True)
+        failures.append({"signature": "prop:keyfunction:raised",
+                         "what": "every call raises under PYTHONHASHSEED=%r: %s" % (hs, w.fatal),
+                         "case": {"kind": "envcall", "mode": mode, "hashseed": hs}})
+        with open("obs_%s.json" % mode, "w") as f:
+            json.dump({"mode": mode, "hashseed": hs, "records": [], "envobs": envobs, "names": w.names}, f)
+        print(json.dumps({"files": [envfile], "histories": 0, "calls": 0, "hammer": [], "key_collisions": [], "n_keys": 0,
+                          "n_classes": len(w.reps), "sizes": {}, "failures": failures, "unpicklable": [], "wall": 0}))
+        return
+    unpicklable, n_attr = [], 0
     try:
         for sig, what in w.problems:
             failures.append({"signature": "prop:" + sig, "what": what,
                              "case": {"kind": "pool", "mode": mode, "hashseed": os.environ.get("PYTHONHASHSEED")}})
         sizes = measure_sizes(w, base)
         hists = gen_histories(w, seed, tier, budget, sizes)
+        if budget == "lite":      # reduced set for the extra hash modes
+            keep = {"witness_collision", "witness_truncation", "witness_concurrent", "sequence", "unloadable",
+                    "coldstart", "crash_at_rename", "random"}
+            hists = [h for h in hists if h["family"] in keep]
+        # pairs differing only in the state of a non-SymPy attribute, every kind of attribute value
+        for kind in attr_pairs():
+            for oi, order in enumerate(ATTR_ORDERS if tier == "thorough" else ATTR_ORDERS[:3]):
+                for forked in (False, True):
+                    n, problem, unp = run_attr_pair(kind, order, forked, base)
+                    n_attr += n
+                    if unp and kind not in unpicklable:
+                        unpicklable.append(kind)
+                    if problem:
+                        failures.append({"signature": "prop:attribute_pair:%s" % ("raised" if "raised" in problem else "wrong_value"),
+                                         "what": "pair differing only in a non-SymPy attribute (%s), order %s%s: %s [hash mode %s]"
+                                         % (kind, "".join("AB"[i] for i in order), ", later processes" if forked else "", problem, mode),
+                                         "case": {"kind": "attrpair", "mode": mode, "hashseed": hs, "pair": kind,
+                                                  "order": order, "forked": forked}})
+                        break
+                else:
+                    continue
+                break
         for hi, h in enumerate(hists):
             top = tempfile.mkdtemp(prefix="h%d_" % hi, dir=base)
             root = os.path.join(top, "not", "yet", "there") if h.get("cold") else top
@@ -874,7 +1066,9 @@ def cmd_run(seed, tier, mode, budget):
         runs = [(2, 30, False), (4, 30, True)] if tier == "quick" else \
             [(2, 200, False), (3, 200, True), (4, 300, True), (4, 300, False)]
         group = [P[n] for n in ("edw_std", "edw_sw", "edw_cx", "edw_std_again", "cs_xpos", "cs_xneg", "bms")]
-        ncalls_h = 0
+        ncalls_h = n_attr
+        if budget == "lite":
+            runs = runs[:1]
         for ri, (nproc, ncalls, chaos) in enumerate(runs):
             root = tempfile.mkdtemp(prefix="ham%d_" % ri, dir=base)
             out = hammer(w, root, nproc, ncalls, seed * 10 + ri, group, chaos)
@@ -890,7 +1084,7 @@ def cmd_run(seed, tier, mode, budget):
                                           "nproc": nproc, "ncalls": ncalls, "chaos": chaos, "seed": seed * 10 + ri,
                                           "group": group}})
         # cold-start races without any barrier inside the call (real scheduling)
-        cr_rounds = 12 if tier == "quick" else 200
+        cr_rounds = (12 if tier == "quick" else 200) if budget != "lite" else 4
         ncold, cbad = coldrace(w, base, 8, cr_rounds, seed + 17, group)
         ncalls_h += ncold
         ham.append({"coldrace_rounds": cr_rounds, "nproc": 8, "bad": len(cbad)})
@@ -909,10 +1103,11 @@ def cmd_run(seed, tier, mode, budget):
             if w.ktab[i] == w.ktab[j]:
                 collisions.append([w.names[w.reps[i]], w.names[w.reps[j]], w.did[i] != w.did[j]])
     with open("obs_%s.json" % mode, "w") as f:
-        json.dump({"mode": mode, "hashseed": os.environ.get("PYTHONHASHSEED"), "records": records,
+        json.dump({"mode": mode, "hashseed": os.environ.get("PYTHONHASHSEED"), "records": records, "envobs": envobs,
                    "names": w.names, "cid": w.cid, "ktab": w.ktab, "did": w.did}, f)
     ncalls = sum(len(r["obs"][-1][0]) for r in records if r["obs"])
-    print(json.dumps({"files": files, "histories": len(records), "calls": ncalls + ncalls_h, "hammer": ham,
+    print(json.dumps({"files": files + [envfile], "unpicklable": unpicklable,
+                      "histories": len(records), "calls": ncalls + ncalls_h, "hammer": ham,
                       "key_collisions": collisions, "n_keys": len(w.keys), "n_classes": len(w.reps),
                       "sizes": sizes, "failures": failures[:20], "wall": round(time.time() - t0, 1)}))
 
@@ -926,6 +1121,24 @@ def cmd_diff(mode):
         preds += parse_coq_output(open("Cases_C16_%s_%d.out" % (mode, k)).read())
         k += 1
     failures, fam = [], {}
+    envout = "Cases_C16_%s_env.out" % mode
+    env_checked = 0
+    if os.path.exists(envout):
+        m = re.search(r"^\s*= \[(.*)\]", open(envout).read(), re.M)
+        model = [int(x.strip().replace("%N", "")) for x in m.group(1).split(";")] if m else []
+        real = doc.get("envobs", [])
+        if len(model) != len(real):
+            print(json.dumps({"error": "env correspondence: %d model values for %d observations" % (len(model), len(real))}))
+            return
+        for rec, mc in zip(real, model):
+            env_checked += 1
+            if rec["code"] != mc:
+                failures.append({"signature": "model_mismatch:hash_mode",
+                                 "what": "PYTHONHASHSEED=%r: _get_python_hash_seed gives code %s (%s), model hash_mode gives %s "
+                                 "(0 sha256, n+1 python hash with seed n, -1 raised)" % (rec["value"], rec["code"], rec.get("exc"), mc),
+                                 "case": {"kind": "envvalue", "mode": mode, "hashseed": doc["hashseed"], "value": rec["value"],
+                                          "expected_code": mc}})
+                break
     if len(preds) != 2 * len(recs):
         print(json.dumps({"error": "expected %d model results, got %d" % (2 * len(recs), len(preds))}))
         return
@@ -966,7 +1179,7 @@ def cmd_diff(mode):
                              "case": {"kind": "history", "mode": mode, "hashseed": doc["hashseed"],
                                       "family": r["family"], "ops": r["ops"], "cold": bool(r.get("cold")),
                                       "expected": norm(rob), "legend": LEGEND}})
-    print(json.dumps({"histories": len(recs), "matches_robust": n_robust, "matches_pinned": n_pinned,
+    print(json.dumps({"env_values_checked": env_checked, "histories": len(recs), "matches_robust": n_robust, "matches_pinned": n_pinned,
                       "variants_differ": n_differ, "distinct_nontrivial": len(distinct), "families": fam,
                       "samples": list(samples.values())[:6], "failures": failures[:20]}))
 
@@ -977,6 +1190,40 @@ def replay_case(case):
     try:
         if case["kind"] == "pool":
             return bool(w.problems), [p[1] for p in w.problems]
+        if case["kind"] == "envvalue":
+            v = case["value"]
+            import ampform.sympy._cache as ch
+            saved = os.environ.get("PYTHONHASHSEED")
+            try:
+                if v is None:
+                    os.environ.pop("PYTHONHASHSEED", None)
+                else:
+                    os.environ["PYTHONHASHSEED"] = v
+                try:
+                    r = ch._get_python_hash_seed()
+                    code = 0 if r is None else int(r) + 1
+                    get_readable_hash(sp.Symbol("x") + 1)
+                except Exception as exc:  # noqa: BLE001
+                    return True, ["raised %s" % type(exc).__name__]
+                if "expected_code" in case and code != case["expected_code"]:
+                    return True, ["code %s, expected %s" % (code, case["expected_code"])]
+                return False, []
+            finally:
+                if saved is None:
+                    os.environ.pop("PYTHONHASHSEED", None)
+                else:
+                    os.environ["PYTHONHASHSEED"] = saved
+        if case["kind"] == "envcall":
+            if w.fatal:
+                return True, [w.fatal]
+            try:
+                asy.perform_cached_doit(w.exprs[0], os.path.join(base, "d"))
+            except Exception as exc:  # noqa: BLE001
+                return True, ["raised %s" % type(exc).__name__]
+            return False, []
+        if case["kind"] == "attrpair":
+            n, problem, unp = run_attr_pair(case["pair"], case["order"], case["forked"], base)
+            return bool(problem), [problem]
         if case["kind"] == "coldrace":
             n, bad = coldrace(w, base, case["nproc"], case["rounds"], case["seed"], case["group"])
             return bool(bad), bad[:2]
